@@ -102,7 +102,7 @@ Proof. vm_compute. split; reflexivity. Qed.
 Theorem C18_static_sibling_choice_sound :
   forall prio ae avail name ext,
   select_sibling prio ae avail = Some (name, ext) ->
-  (exists e, In e (split 44 ae) /\ trim_space e = name) /\ avail ext = true /\
+  (exists e, In e (split 44 ae) /\ trim e = name) /\ avail ext = true /\
   exists l1 l2, prio = l1 ++ (name, ext) :: l2 /\
     forall n e, In (n, e) l1 -> accepted ae n = false \/ avail e = false.
 Proof.
@@ -241,26 +241,23 @@ Print Assumptions C18_compresses_when_eligible.
 
 (* ---- 6. precompressed siblings only in a coding the request offers ----
    The file server's test (fileserver.go:serveFile), exactly: the header is split at commas and a
-   coding counts as accepted iff one element, stripped of surrounding white space by
-   strings.TrimSpace, IS the coding's name (C18_static_sibling_choice_sound above).  So an element
-   that carries any parameter never matches: "gzip;q=0" refuses, and "gzip;q=1" is not understood
-   either (the identity file is served).  Against the RFC 7231 reading ([offers_coding]: comma
-   list, name before ';', case-insensitive, OWS = SP / HTAB, q=0 = not acceptable, "*" for
-   unlisted codings): for ALL Accept-Encoding values made of printable ASCII and HTAB, all sets of
-   siblings on disk ([avail]) and the priority table of the current sources, a sibling is served
-   only in a coding the request offers. *)
-Theorem C18_sibling_only_if_offered_partial :
+   coding counts as accepted iff one element, stripped of the optional white space HTTP allows
+   around a list element (strings.Trim(acc, " \t"): SP / HTAB only), IS the coding's name
+   (C18_static_sibling_choice_sound above).  So an element that carries any parameter never
+   matches: "gzip;q=0" refuses, and "gzip;q=1" is not understood either (the identity file is
+   served); Unicode white space around the name is part of the element and does not match either.
+   Against the RFC 7231 reading ([offers_coding]: comma list, name before ';', case-insensitive,
+   OWS = SP / HTAB, q=0 = not acceptable, "*" for unlisted codings): for EVERY Accept-Encoding
+   byte string, all sets of siblings on disk ([avail]) and the priority table of the current
+   sources, a sibling is served only in a coding the request offers. *)
+Theorem C18_sibling_only_if_offered :
   forall ae avail name ext,
   select_sibling gen_c18_static_priority ae avail = Some (name, ext) ->
-  forallb vis ae = true ->
   avail ext = true /\ offers_coding ae name = true.
-Proof.
-  intros ae avail name ext H Hv. exact (sibling_only_if_offered_table ae avail name ext H (vis_plain_ows ae Hv)).
-Qed.
-Print Assumptions C18_sibling_only_if_offered_partial.
+Proof. exact sibling_only_if_offered_table. Qed.
+Print Assumptions C18_sibling_only_if_offered.
 
 Example C18_sibling_only_if_offered_nonvacuous :
-  forallb vis (bs "br;q=0, zstd ,	gzip;q=0.5") = true /\
   select_sibling gen_c18_static_priority (bs "br;q=0, zstd ,	gzip;q=0.5") (fun _ => true) = Some (bs "zstd", bs ".zst") /\
   (* the full 8 x 8 matrix: siblings on disk x codings offered (plain spelling) *)
   forallb (fun sib => forallb (fun off =>
@@ -272,23 +269,21 @@ Example C18_sibling_only_if_offered_nonvacuous :
       | Some (n, e) => offers_coding ae n && avail e
       | None => forallb (fun ne => negb (offers_coding ae (fst ne) && avail (snd ne))) gen_c18_static_priority
       end) [0; 1; 2; 3; 4; 5; 6; 7]) [0; 1; 2; 3; 4; 5; 6; 7] = true.
-Proof. vm_compute. repeat split; reflexivity. Qed.
+Proof. vm_compute. split; reflexivity. Qed.
 
-(* every table: names that are lower-case tokens without ';', header elements with SP / HTAB
-   around them only *)
-Theorem C18_sibling_only_if_offered_any_table_partial :
+(* every table: names that are lower-case tokens without ';' *)
+Theorem C18_sibling_only_if_offered_any_table :
   forall prio ae avail name ext,
   select_sibling prio ae avail = Some (name, ext) ->
-  plain_ows ae -> ~ In 59 name -> to_lower name = name ->
+  ~ In 59 name -> to_lower name = name ->
   avail ext = true /\ offers_coding ae name = true.
 Proof. exact sibling_only_if_offered. Qed.
-Print Assumptions C18_sibling_only_if_offered_any_table_partial.
+Print Assumptions C18_sibling_only_if_offered_any_table.
 
 Example C18_sibling_only_if_offered_any_table_nonvacuous :
-  plain_ows (bs "br, gzip;q=0") /\ ~ In 59 (bs "br") /\ to_lower (bs "br") = bs "br" /\
+  ~ In 59 (bs "br") /\ to_lower (bs "br") = bs "br" /\
   select_sibling priority_snapshot (bs "br, gzip;q=0") (fun _ => true) = Some (bs "br", bs ".br").
 Proof.
-  split; [apply vis_plain_ows; vm_compute; reflexivity|].
   split; [intros H; vm_compute in H; intuition discriminate|]. split; vm_compute; reflexivity.
 Qed.
 
@@ -302,15 +297,27 @@ Example C18_sibling_parameter_spellings_refused :
     gen_c18_static_priority = true.
 Proof. exact sibling_param_spellings_refused. Qed.
 
-(* Without the condition on the header bytes the statement is false of the code: TrimSpace also
-   strips Unicode white space, so "gzip<U+00A0>" — which names no coding in the RFC reading — gets
-   the .gz sibling (replayed on the real server: corpus/C18/f7_unicode_space.json, finding F-C18-7) *)
-Theorem C18_sibling_only_if_offered_refuted :
-  exists ae name ext,
-    select_sibling gen_c18_static_priority ae (fun e => beq e (bs ".gz")) = Some (name, ext) /\
-    offers_coding ae name = false.
-Proof. exact sibling_only_if_offered_refuted. Qed.
-Print Assumptions C18_sibling_only_if_offered_refuted.
+(* white space: with every sibling on disk, a coding name with Unicode white space (U+00A0,
+   U+0085, U+2003, U+3000 as UTF-8) or another control (VT FF CR LF NUL) before / after it gets
+   the identity file — the witnesses of the repaired finding F-C18-7 (the test was
+   strings.TrimSpace; replayed on the real server on every run: corpus/C18/f7_unicode_space.json)
+   — while SP / HTAB around the name are stripped and the coding is taken *)
+Example C18_sibling_unicode_space_refused :
+  forallb (fun c =>
+    forallb (fun ws =>
+      match select_sibling gen_c18_static_priority (fst c ++ ws) (fun _ => true),
+            select_sibling gen_c18_static_priority (ws ++ fst c) (fun _ => true),
+            select_sibling gen_c18_static_priority (bs "identity," ++ ws ++ fst c ++ ws ++ bs ",x") (fun _ => true) with
+      | None, None, None => true | _, _, _ => false end)
+      [[194; 160]; [194; 133]; [226; 128; 131]; [227; 128; 128]; [11]; [12]; [13]; [10]; [0]; [32; 194; 160]; [194; 160; 9]])
+    gen_c18_static_priority = true /\
+  forallb (fun c =>
+    forallb (fun ws =>
+      match select_sibling gen_c18_static_priority (bs "identity," ++ ws ++ fst c ++ ws ++ bs ",x") (fun _ => true) with
+      | Some ne => beq (fst ne) (fst c) | None => false end)
+      [[]; [32]; [9]; [32; 9; 32]])
+    gen_c18_static_priority = true.
+Proof. exact sibling_unicode_space_refused. Qed.
 
 (* ---- 7. the pooled gzip writers under concurrency ----
    [prun nput_code t] is the state after ANY sequence [t] of events of any number of concurrent
